@@ -103,10 +103,21 @@ func slotMask(b, n, i int) uint64 {
 	return 1<<uint(used*b) - 1
 }
 
+// panics runs fn and says whether it panicked (vm.Try also resolves the panic site from a stack dump, which nobody reads
+// here and which dominated the run time once the refused calls were tried on three storages per history).
+func panics(fn func()) (p bool) {
+	defer func() {
+		if recover() != nil {
+			p = true
+		}
+	}()
+	fn()
+	return false
+}
+
 func expectPanic(c *vm.Ctx, s *level.BitStorage, h *hist, name string, fn func()) {
 	before := append([]uint64{}, s.Raw()...)
-	val, _ := vm.Try(fn)
-	if val == nil {
+	if !panics(fn) {
 		c.Violation("reject/no-panic/"+name, fmt.Sprintf("bits=%d n=%d: %s did not panic", h.b, h.n, name), h.wit())
 	} else {
 		c.Cover("reject." + name)
@@ -114,6 +125,106 @@ func expectPanic(c *vm.Ctx, s *level.BitStorage, h *hist, name string, fn func()
 	if !eqRaw(before, s.Raw()) {
 		c.Violation("reject/modified-before-panic/"+name, fmt.Sprintf("bits=%d n=%d: %s changed the storage although it was refused", h.b, h.n, name), h.wit())
 	}
+}
+
+// callerKeepsItsSlice: the caller of the constructor goes on using the slice it passed - it overwrites it, and it builds a
+// second storage from it. Neither may show in the first storage, whose values change through Set and Swap only.
+func callerKeepsItsSlice(c *vm.Ctx, r *vm.Rand, s *level.BitStorage, raw []uint64, model []int, h *hist) bool {
+	if h.n == 0 || len(raw) == 0 {
+		return true
+	}
+	var twin *level.BitStorage
+	if c.Guard("ctor", h.wit, func() { twin = level.NewBitStorage(h.b, h.n, raw) }) {
+		return false
+	}
+	ok := false
+	keep := len(h.ops)
+	pan := c.Guard("ops", h.wit, func() {
+		h.ops = append(h.ops, "(the caller overwrites the slice it gave to the constructor)")
+		for i := range raw {
+			raw[i] = r.Uint64()
+		}
+		if !fullCompare(c, s, model, h, "after-caller-overwrote-its-slice") || !fullCompare(c, twin, model, h, "after-caller-overwrote-its-slice") {
+			return
+		}
+		h.ops = append(h.ops, "(every index of a second storage built from the same slice is set to another value)")
+		maxV := 1<<uint(h.b) - 1
+		for i := range model {
+			twin.Set(i, model[i]^maxV)
+		}
+		if !fullCompare(c, s, model, h, "after-sets-in-a-storage-built-from-the-same-slice") {
+			return
+		}
+		for i := range model {
+			if g := twin.Get(i); g != model[i]^maxV {
+				c.Violation("model/get-differs/second-storage-from-the-same-slice", fmt.Sprintf("bits=%d n=%d: Get(%d)=%d after Set(%d,%d)", h.b, h.n, i, g, i, model[i]^maxV), h.wit())
+				return
+			}
+		}
+		ok = true
+	})
+	if pan || !ok {
+		return false
+	}
+	h.ops = h.ops[:keep]
+	c.Cover("init.raw-slice-stays-the-callers")
+	return true
+}
+
+// earlierField lets dst read (and fix) a reference-packed field of another array of the same length and a random width
+// first, so that the read that follows meets a receiver whose longs were sized by an earlier ReadFrom.
+func earlierField(c *vm.Ctx, r *vm.Rand, dst *level.BitStorage, n int, h *hist) bool {
+	b2 := r.Intn(min(32, strconv.IntSize-1) + 1)
+	vals := make([]int, n)
+	if b2 > 0 {
+		for i := range vals {
+			vals[i] = int(r.Uint64() & (uint64(1)<<uint(b2) - 1))
+		}
+	}
+	longs := refPack(vals, b2)
+	field := refwire.EncVarInt(int32(len(longs)))
+	for _, v := range longs {
+		var t [8]byte
+		binary.BigEndian.PutUint64(t[:], v)
+		field = append(field, t[:]...)
+	}
+	w := func() any {
+		m := h.wit().(map[string]any)
+		m["earlier_field_bits"] = b2
+		m["earlier_field_longs"] = len(longs)
+		return m
+	}
+	var rn int64
+	var err error
+	rd := bytes.NewReader(append(append([]byte{}, field...), 0x01))
+	if c.Guard("wire/read", w, func() {
+		rn, err = dst.ReadFrom(rd)
+		if err == nil {
+			err = dst.Fix(b2)
+		}
+	}) {
+		return false
+	}
+	if err != nil || rn != int64(len(field)) || rd.Len() != 1 {
+		c.Violation("wire/reference-packed-field", fmt.Sprintf("ReadFrom+Fix(%d) of a reference-packed field of %d values: n=%d (field is %d bytes) remaining=%d err=%v", b2, n, rn, len(field), rd.Len(), err), w())
+		return false
+	}
+	ok := true
+	if c.Guard("wire/read", w, func() {
+		for i, v := range vals {
+			if g := dst.Get(i); g != v {
+				c.Violation("wire/reference-packed-field/get-differs", fmt.Sprintf("a reference-packed %d-bit field of %d values read into a used storage and fixed: Get(%d)=%d, the field says %d", b2, n, i, g, v), w())
+				ok = false
+				return
+			}
+		}
+	}) {
+		return false
+	}
+	if ok {
+		c.Cover("wire.reference-packed-field-read")
+	}
+	return ok
 }
 
 func runHistory(c *vm.Ctx, r *vm.Rand, b, n, steps int, withInit bool) {
@@ -168,6 +279,9 @@ func runHistory(c *vm.Ctx, r *vm.Rand, b, n, steps int, withInit bool) {
 			return
 		}
 		c.Cover("init.raw")
+		if !callerKeepsItsSlice(c, r, s, raw, model, h) {
+			return
+		}
 	} else {
 		if c.Guard("ctor", h.wit, func() { s = level.NewBitStorage(b, n, nil) }) {
 			return
@@ -183,79 +297,110 @@ func runHistory(c *vm.Ctx, r *vm.Rand, b, n, steps int, withInit bool) {
 		c.Violation("packing/raw-length", fmt.Sprintf("bits=%d n=%d: len(Raw())=%d, packing needs %d", b, n, len(s.Raw()), refSize(b, n)), h.wit())
 		return
 	}
+	per := 1
+	if b > 0 {
+		per = 64 / b
+	}
+	randI := func() int {
+		if n == 0 {
+			return 0
+		}
+		switch r.Intn(6) {
+		case 0:
+			return 0
+		case 1:
+			return n - 1
+		case 2:
+			return min(n-1, per-1) // last of the first long
+		case 3:
+			return min(n-1, per) // first of the next long
+		case 4:
+			return min(n-1, 1)
+		}
+		return r.Intn(n)
+	}
+	// opLoop runs `steps` random operations on st against the model m (whole-array comparison every 64 steps and at the end).
+	opLoop := func(st *level.BitStorage, m []int, steps int, where string) bool {
+		for i := 0; i < steps && n > 0; i++ {
+			i0 := randI()
+			switch r.Intn(3) {
+			case 0:
+				v := randV()
+				h.ops = append(h.ops, fmt.Sprintf("Set(%d,%d)", i0, v))
+				st.Set(i0, v)
+				m[i0] = v
+			case 1:
+				v := randV()
+				h.ops = append(h.ops, fmt.Sprintf("Swap(%d,%d)", i0, v))
+				old := st.Swap(i0, v)
+				if old != m[i0] {
+					c.Violation("model/swap-returns-other", fmt.Sprintf("bits=%d n=%d: Swap(%d,%d) returned %d, previous value was %d (%s)", b, n, i0, v, old, m[i0], where), h.wit())
+					return false
+				}
+				m[i0] = v
+			default:
+				h.ops = append(h.ops, fmt.Sprintf("Get(%d)", i0))
+				if g := st.Get(i0); g != m[i0] {
+					c.Violation("model/get-differs/"+where, fmt.Sprintf("bits=%d n=%d: Get(%d)=%d, model %d (%s)", b, n, i0, g, m[i0], where), h.wit())
+					return false
+				}
+			}
+			if i%64 == 63 || steps <= 8 {
+				if !fullCompare(c, st, m, h, where) {
+					return false
+				}
+			}
+		}
+		return true
+	}
+	// refused calls (b >= 1 only: with b == 0 the statement only says every Get is 0). The index-refusal calls carry the
+	// largest value: a write that came before the index check would land in a padding slot, where a 0 would not show.
+	refusals := func(st *level.BitStorage, m []int, where string) {
+		if b < 1 || n < 1 {
+			return
+		}
+		expectPanic(c, st, h, "Set(index=-1)", func() { st.Set(-1, maxV) })
+		expectPanic(c, st, h, "Set(index=n)", func() { st.Set(n, maxV) })
+		expectPanic(c, st, h, "Set(value=-1)", func() { st.Set(0, -1) })
+		expectPanic(c, st, h, "Set(value=2^b)", func() { st.Set(n-1, maxV+1) })
+		expectPanic(c, st, h, "Swap(index=n)", func() { st.Swap(n, maxV) })
+		expectPanic(c, st, h, "Swap(index=-1)", func() { st.Swap(-1, maxV) })
+		expectPanic(c, st, h, "Swap(value=2^b)", func() { st.Swap(0, maxV+1) })
+		expectPanic(c, st, h, "Get(index=n)", func() { st.Get(n) })
+		expectPanic(c, st, h, "Get(index=-1)", func() { st.Get(-1) })
+		c.Guard("ops", h.wit, func() { fullCompare(c, st, m, h, where) })
+	}
+	// derived: a storage that did not come from the first constructor call (rebuilt from Raw(), or filled from the wire and
+	// fixed) is an array like any other: some more steps against a copy of the model, the refused calls, Len().
+	derived := func(st *level.BitStorage, what, cover string) {
+		if st.Len() != n {
+			c.Violation("derived/len/"+cover, fmt.Sprintf("bits=%d: Len()=%d on the storage %s, want %d", b, st.Len(), what, n), h.wit())
+			return
+		}
+		keep := len(h.ops)
+		h.ops = append(h.ops, "-- from here on the storage "+what+" --")
+		m := append([]int{}, model...)
+		ok := false
+		if c.Guard("ops", h.wit, func() {
+			ok = opLoop(st, m, 50, cover) && fullCompare(c, st, m, h, cover+"-final")
+		}) || !ok {
+			return
+		}
+		refusals(st, m, cover+"-after-refused-calls")
+		h.ops = h.ops[:keep]
+		c.Cover("ops-on." + cover)
+	}
+	okMain := false
 	pan := c.Guard("ops", h.wit, func() {
 		if !fullCompare(c, s, model, h, "initial") {
 			return
 		}
-		per := 1
-		if b > 0 {
-			per = 64 / b
-		}
-		randI := func() int {
-			if n == 0 {
-				return 0
-			}
-			switch r.Intn(6) {
-			case 0:
-				return 0
-			case 1:
-				return n - 1
-			case 2:
-				return min(n-1, per-1) // last of the first long
-			case 3:
-				return min(n-1, per) // first of the next long
-			case 4:
-				return min(n-1, 1)
-			}
-			return r.Intn(n)
-		}
-		for st := 0; st < steps && n > 0; st++ {
-			i := randI()
-			switch r.Intn(3) {
-			case 0:
-				v := randV()
-				h.ops = append(h.ops, fmt.Sprintf("Set(%d,%d)", i, v))
-				s.Set(i, v)
-				model[i] = v
-			case 1:
-				v := randV()
-				h.ops = append(h.ops, fmt.Sprintf("Swap(%d,%d)", i, v))
-				old := s.Swap(i, v)
-				if old != model[i] {
-					c.Violation("model/swap-returns-other", fmt.Sprintf("bits=%d n=%d: Swap(%d,%d) returned %d, previous value was %d", b, n, i, v, old, model[i]), h.wit())
-					return
-				}
-				model[i] = v
-			default:
-				h.ops = append(h.ops, fmt.Sprintf("Get(%d)", i))
-				if g := s.Get(i); g != model[i] {
-					c.Violation("model/get-differs/step", fmt.Sprintf("bits=%d n=%d: Get(%d)=%d, model %d", b, n, i, g, model[i]), h.wit())
-					return
-				}
-			}
-			if st%64 == 63 || steps <= 8 {
-				if !fullCompare(c, s, model, h, "step") {
-					return
-				}
-			}
-		}
-		fullCompare(c, s, model, h, "final")
+		okMain = opLoop(s, model, steps, "step") && fullCompare(c, s, model, h, "final")
 	})
-	if pan {
+	if pan || !okMain {
 		return
 	}
-	// refused calls (b >= 1 only: with b == 0 the statement only says every Get is 0)
-	if b >= 1 && n >= 1 {
-		expectPanic(c, s, h, "Set(index=-1)", func() { s.Set(-1, 0) })
-		expectPanic(c, s, h, "Set(index=n)", func() { s.Set(n, 0) })
-		expectPanic(c, s, h, "Set(value=-1)", func() { s.Set(0, -1) })
-		expectPanic(c, s, h, "Set(value=2^b)", func() { s.Set(n-1, maxV+1) })
-		expectPanic(c, s, h, "Swap(index=n)", func() { s.Swap(n, 0) })
-		expectPanic(c, s, h, "Swap(value=2^b)", func() { s.Swap(0, maxV+1) })
-		expectPanic(c, s, h, "Get(index=n)", func() { s.Get(n) })
-		expectPanic(c, s, h, "Get(index=-1)", func() { s.Get(-1) })
-		c.Guard("ops", h.wit, func() { fullCompare(c, s, model, h, "after-refused-calls") })
-	}
+	refusals(s, model, "after-refused-calls")
 	if b == 0 {
 		c.Guard("ops", h.wit, func() {
 			for i := 0; i < n; i++ {
@@ -271,7 +416,16 @@ func runHistory(c *vm.Ctx, r *vm.Rand, b, n, steps int, withInit bool) {
 	raw := append([]uint64{}, s.Raw()...)
 	var s2 *level.BitStorage
 	if !c.Guard("ctor-from-raw", h.wit, func() { s2 = level.NewBitStorage(b, n, raw) }) {
-		c.Guard("ops", h.wit, func() { fullCompare(c, s2, model, h, "rebuilt-from-raw") })
+		ok := false
+		c.Guard("ops", h.wit, func() { ok = fullCompare(c, s2, model, h, "rebuilt-from-raw") })
+		if ok {
+			derived(s2, "rebuilt from a copy of Raw()", "storage-rebuilt-from-raw")
+			// neither the copy handed to the constructor nor the first storage may have followed s2's history
+			if !eqRaw(raw, s.Raw()) {
+				c.Violation("ctor/keeps-the-callers-slice", fmt.Sprintf("bits=%d n=%d: operations on a storage built from a slice changed that slice", b, n), h.wit())
+				return
+			}
+		}
 	}
 	// wrong raw length must be refused (constructor panics by contract, Fix returns an error)
 	if b >= 1 {
@@ -319,6 +473,26 @@ func runHistory(c *vm.Ctx, r *vm.Rand, b, n, steps int, withInit bool) {
 	if dst == nil {
 		return
 	}
+	// the receiver's own past: nothing, values set into it, and/or an earlier field of yet another width read into it
+	past := r.Intn(4)
+	if past&1 == 1 && ob > 0 && n > 0 {
+		vmask := uint64(1)<<uint(min(ob, strconv.IntSize-1)) - 1
+		if c.Guard("wire/receiver-sets", h.wit, func() {
+			for j := 0; j < 40; j++ {
+				dst.Set(r.Intn(n), int(r.Uint64()&vmask))
+			}
+		}) {
+			return
+		}
+		h.ops = append(h.ops, fmt.Sprintf("(receiver: %d-bit storage with 40 random values set)", ob))
+		c.Cover("wire.receiver-with-values-set")
+	}
+	if past&2 == 2 {
+		if !earlierField(c, r, dst, n, h) {
+			return
+		}
+		h.ops = append(h.ops, "(receiver: has read and fixed another field before)")
+	}
 	in := append(append([]byte{}, want...), 0xde, 0xad)
 	rd := bytes.NewReader(in)
 	var rn int64
@@ -336,7 +510,20 @@ func runHistory(c *vm.Ctx, r *vm.Rand, b, n, steps int, withInit bool) {
 		c.Violation("wire/fix-refuses-right-length", fmt.Sprintf("Fix(%d) after reading the storage's own wire form: %v", b, err), h.wit())
 		return
 	}
-	c.Guard("ops", h.wit, func() { fullCompare(c, dst, model, h, "after-wire-roundtrip") })
+	okWire := false
+	c.Guard("ops", h.wit, func() { okWire = fullCompare(c, dst, model, h, "after-wire-roundtrip") })
+	if !okWire {
+		return
+	}
+	if past&2 == 2 {
+		c.Cover("wire.receiver-read-twice")
+	}
+	derived(dst, "filled from the wire and fixed", "storage-from-wire")
+	// the sender is a separate array: it has not followed the receiver
+	if !eqRaw(raw, s.Raw()) {
+		c.Violation("wire/receiver-shares-longs-with-sender", fmt.Sprintf("bits=%d n=%d: operations on the receiver changed the storage that was written", b, n), h.wit())
+		return
+	}
 	// Fix with a width whose size rule disagrees with the data must be refused
 	if b >= 1 {
 		for _, wb := range []int{1, 7, 13, 32} {
